@@ -1,35 +1,115 @@
-"""C10 (Curve.tla family)"""
+"""C10 -- arguments are taken by value (Mutate* actions of Curve.tla, clauses
+C10_* on every recorded call, plus the stateless entry points)."""
+import copy
+
+import numpy as np
+
 import curve_check
 import world
 
 
-def slices(ctx):
-    sl = {k: world.SLICES[k] for k in ("model", "range", "pre", "alias")}
-    pairs = world.pair_slices()
-    names = sorted(pairs)
-    if ctx.tier == "quick":
-        import random
-        rng = random.Random(ctx.seed)
-        names = rng.sample(names, 6)
-    for n in names:
-        sl[n] = pairs[n]
-    return sl
+def pure_entry_points(ctx):
+    """Stateless APIs: the argument must be unchanged after the call and a
+    second call with the same (possibly edited in place) object must equal
+    a call with a fresh equal-valued object.  Recorded as trace events of
+    kind 'pure' and judged by the same C10_ArgsUnchanged clause."""
+    import warnings
+    from nanite import poc, model, preproc
+    from nanite.rate import IndentationRater
+    import curve_exec
+    import synth
+    events = []
+
+    def record(name, fn, args):
+        snaps = [curve_exec.snapshot_arg(a) for a in args]
+        ev = {"name": name, "argsame": True, "byvalue": True, "exc": ""}
+        try:
+            with warnings.catch_warnings():
+                warnings.simplefilter("ignore")
+                r1 = fn(*args)
+                ev["argsame"] = all(curve_exec.snapshot_arg(a) == s
+                                    for a, s in zip(args, snaps))
+                r2 = fn(*copy.deepcopy(list(args)))
+            ev["byvalue"] = curve_exec.snapshot_arg(r1) == \
+                curve_exec.snapshot_arg(r2) if not isinstance(r1, tuple) \
+                else repr(r1)[:200] == repr(r2)[:200]
+        except BaseException as exc:   # noqa
+            ev["exc"] = type(exc).__name__
+        events.append(ev)
+
+    idnt = synth.make_curve(n_app=400, noise=3e-11, seed=11)
+    idnt.apply_preprocessing(world.PIPES["P1"][0])
+    force = np.array(idnt["force"], copy=True)
+    for m in poc.POC_METHODS:
+        record(f"compute_poc:{m.identifier}",
+               lambda f, mm=m.identifier: poc.compute_poc(f, mm), [force])
+        record(f"compute_poc_details:{m.identifier}",
+               lambda f, mm=m.identifier: poc.compute_poc(
+                   f, mm, ret_details=True)[0], [force])
+    x = np.array(idnt["tip position"][idnt["segment"] == 0], copy=True)
+    y = np.array(idnt["force"][idnt["segment"] == 0], copy=True)
+    for key, md in model.models_available.items():
+        p = md.get_parameter_defaults()
+        record(f"model:{key}", md.model, [p, x])
+        record(f"model_rev:{key}", md.model, [p, x[::-1].copy()])
+        record(f"residual:{key}", md.residual, [p, x, y, 5e-7])
+        record(f"model_func:{key}",
+               lambda d, pp: md.module.model_func(d, **pp.valuesdict()),
+               [x, p])
+    steps = list(world.PIPES["P2"][0])[::-1]
+    record("autosort", preproc.autosort, [steps])
+    record("check_order", lambda s: preproc.check_order(s),
+           [list(world.PIPES["P2"][0])])
+    X, yy = IndentationRater.load_training_set()
+    record("compute_sample_weight", IndentationRater.compute_sample_weight,
+           [X, yy])
+    names = ["feat_con_idt_sum", "feat_con_apr_sum", "feat_bin_size"]
+    record("get_feature_names",
+           lambda n: IndentationRater.get_feature_names(names=n), [names])
+    idnt.fit_model(model_key="hertz_para")
+    record("compute_features",
+           lambda n: IndentationRater.compute_features(idnt, names=n),
+           [names])
+    return events
 
 
 def run(ctx):
     quick = ctx.tier == "quick"
+    sl = {k: world.SLICES[k] for k in ("alias", "alias2", "pre", "pre2")}
     curve_check.run_engine(
-        ctx, "C10_", slices(ctx),
-        n_random=150 if quick else 1500, rand_len=30,
-        walk_limit=120 if quick else None)
+        ctx, "C10_", sl,
+        n_random=120 if quick else 1200, rand_len=30,
+        rand_weights=dict(mutate_pi=4, mutate_pl=3, fit=5, getinit=2,
+                          rate=0.3, scan=0.1),
+        walk_limit=250 if quick else None,
+        curves=("syn1", "rec1"))
+    pure = pure_entry_points(ctx)
+    for ev in pure:
+        if ev["exc"]:
+            continue
+        if not ev["argsame"]:
+            ctx.report(f"C10_ArgsUnchanged|pure:{ev['name']}",
+                       f"{ev['name']} modified its argument",
+                       {"kind": "pure", "name": ev["name"]})
+        if not ev["byvalue"]:
+            ctx.report(f"C10_ByValue|pure:{ev['name']}",
+                       f"{ev['name']}: same object vs deep copy differ",
+                       {"kind": "pure", "name": ev["name"]})
+    ctx.coverage["pure_entry_points"] = len(pure)
+    ctx.coverage["pure_entry_points_raising"] = \
+        [e["name"] for e in pure if e["exc"]]
     ctx.assumptions += [
-        "fresh-object oracle: the reference for 'current' results is the "
-        "same library run once on a new object with deep-copied arguments "
-        "(metamorphic oracle for history independence)",
-        "results are compared bit-for-bit (float.hex / sha256 of columns)",
-        "stale per-point columns while no hash is exposed are not judged",
+        "argument snapshots: lists/dicts structurally with container types, "
+        "lmfit.Parameters by (name,value,min,max,vary,expr), ndarrays by "
+        "dtype/shape/bytes",
+        "in-place edits of a Parameters object are limited to objects with "
+        "the same parameter names (value/min/max/vary)",
     ]
 
 
 def replay(ctx, obj):
+    if obj.get("kind") == "pure":
+        ev = [e for e in pure_entry_points(ctx) if e["name"] == obj["name"]]
+        print(ev)
+        return all(e["argsame"] and e["byvalue"] for e in ev)
     return curve_check.replay(ctx, obj, "C10_")
